@@ -8,7 +8,8 @@
 (*   - every proper beginning of a sequence - at item boundaries and inside   *)
 (*     S-(..) / O-(..) items - followed by a key that occurs in no sequence;   *)
 (*   - a pause of w ticks (w around the timeout) at every item boundary,       *)
-(*     then the rest of the sequence.                                          *)
+(*     then the rest of the sequence;                                          *)
+(*   - the leader once more at every item boundary, then the rest.             *)
 (* A history is a harness script: <<"d", code>>, <<"u", code>>, <<"t", n>>.     *)
 (* TLC enumerates SeScripts(..) per table and prints them; they are run on    *)
 (* the real code and the recorded traces are judged by the monitor P_C12.      *)
@@ -57,7 +58,11 @@ SeDefScripts(items, lead, f, waits, tail) ==
                           b \in {SeOne(SeDef(SubSeq(items, 1, k)))}, x \in SeItemBroken(items[k + 1], f)} : k \in 0..(n - 1)}
       paused == UNION {{lead \o SeOne(SeDef(SubSeq(items, 1, k))) \o <<SeT(w)>> \o SeOne(SeDef(SubSeq(items, k + 1, n)))
                           \o <<SeT(tail)>> : w \in waits} : k \in 0..(n - 1)}
-  IN full \cup dead \cup broken \cup paused
+      \* the leader again in the middle of the sequence (ignored, or a restart with hidden-suppressed)
+      again == IF lead = <<>> THEN {}
+               ELSE {lead \o SeOne(SeDef(SubSeq(items, 1, k))) \o lead \o SeOne(SeDef(SubSeq(items, k + 1, n)))
+                       \o <<SeT(tail)>> : k \in 1..(n - 1)}
+  IN full \cup dead \cup broken \cup paused \cup again
 
 SeScripts(table, lead, f, waits, tail) ==
   UNION {SeDefScripts(table[i], lead, f, waits, tail) : i \in DOMAIN table}
